@@ -197,6 +197,9 @@ def campaign(ctx, exe, name, histories, facets, jobs=8, confirm=True, labels=Non
             if v["verdict"] == "REJ" and labels is not None and not v["label"].startswith(tuple(labels)):
                 ctx.notes.setdefault("rejections_owned_by_other_properties", {}).setdefault(v["label"], 0)
                 ctx.notes["rejections_owned_by_other_properties"][v["label"]] += 1
+                smp = ctx.notes.setdefault("foreign_rejection_samples", {})
+                if hid in hist and (v["label"] not in smp or len(hist[hid]) < len(smp[v["label"]])):
+                    smp[v["label"]] = hist[hid]
                 continue
             if v["verdict"] == "REJ" and hid in hist:
                 rejected.setdefault(hid, []).append((spec, cfg, keep, sk_ops, v))
@@ -204,6 +207,10 @@ def campaign(ctx, exe, name, histories, facets, jobs=8, confirm=True, labels=Non
     t2 = time.time()
     ctx.log("%s: %d histories, sim %.1fs, validation %.1fs (%d projected events), rejected %d" %
             (name, len(hist), t1 - t0, t2 - t1, nev, len(rejected)))
+    fr = ctx.notes.get("rejections_owned_by_other_properties")
+    if fr:
+        # judged no further by this check; the owning property's check reports them (it must run the same family)
+        ctx.log("note: rejections with labels of other properties so far: %s" % fr)
     # confirm + report (group by label so that one defect is not reported 10^3 times)
     bylabel = {}
     for hid, lst in rejected.items():
